@@ -61,6 +61,10 @@ type Rules struct {
 	// a label filter placed after a parser stage is evaluated on the labels as a LATER drop stage (run by the
 	// same engine) leaves them: the drop rewrites the `labels` alias of the SELECT that already holds the WHERE
 	LabelFilterSeesLaterDrop bool
+	// a label filter placed after a parser stage is evaluated on the labels as the NEXT json-with-parameters
+	// stage(s) of the same engine leave them (same mechanism: the later stage rewrites the `labels` alias of the
+	// SELECT whose WHERE holds the filter)
+	LabelFilterSeesLaterParser bool
 }
 
 // Options of one evaluation.
@@ -530,6 +534,43 @@ func (q *LogQuery) filterSeeingLaterDrops(i int, st *state, opt Options) (bool, 
 	return q.Stages[i].Filter.eval(labels, opt.rulesAt(i))
 }
 
+// dropBefore: a drop stage precedes stage i (such a label filter is not evaluated on the stored stream labels).
+func (q *LogQuery) dropBefore(i int) bool {
+	for _, s := range q.Stages[:i] {
+		if s.Kind == Drop {
+			return true
+		}
+	}
+	return false
+}
+
+// filterSeeingLaterParsers: deviant rule LabelFilterSeesLaterParser.
+func (q *LogQuery) filterSeeingLaterParsers(i int, st *state, opt Options) (bool, error) {
+	tmp := *st
+	tmp.labels = CopyLabels(st.labels)
+	applied := false
+scan:
+	for j := i + 1; j < len(q.Stages); j++ {
+		if !opt.AllBefore && j >= opt.SplitAt {
+			break
+		}
+		switch sj := &q.Stages[j]; {
+		case sj.Kind == JSON && len(sj.Params) > 0:
+			if _, err := sj.apply(&tmp, opt.rulesAt(j)); err != nil {
+				return false, err
+			}
+			applied = true
+		case applied:
+			break scan // the select is renewed after the run of parser stages
+		case sj.Kind == LabelFilter || sj.Kind == LineFilter || sj.Kind == LabelFormat:
+			// these only add conditions (label_format: nothing) to the same select
+		default:
+			break scan
+		}
+	}
+	return q.Stages[i].Filter.eval(tmp.labels, opt.rulesAt(i))
+}
+
 // run evaluates the selector on every arriving entry and returns the survivors in arrival order.
 func (q *LogQuery) run(streams []Stream, opt Options) (out []*state, abortIdx int, err error) {
 	match := make([]bool, len(streams))
@@ -551,6 +592,8 @@ func (q *LogQuery) run(streams []Stream, opt Options) (out []*state, abortIdx in
 			ri := opt.rulesAt(i)
 			if ri.LabelFilterSeesLaterDrop && q.Stages[i].Kind == LabelFilter && st.parsed {
 				keep, err = q.filterSeeingLaterDrops(i, st, opt)
+			} else if ri.LabelFilterSeesLaterParser && q.Stages[i].Kind == LabelFilter && (st.parsed || q.dropBefore(i)) {
+				keep, err = q.filterSeeingLaterParsers(i, st, opt)
 			} else {
 				keep, err = q.Stages[i].apply(st, ri)
 			}
